@@ -19,6 +19,10 @@ def Val.show : Val → String
   | .dict kvs => "D{" ++ showKVs kvs ++ "}"
   | .lmap kvs => "M{" ++ showKVs kvs ++ "}"
   | .obj c attrs => s!"O{c}" ++ "{" ++ showAttrs attrs ++ "}"
+  | .dsub kvs => "DS{" ++ showKVs kvs ++ "}"
+  | .dget kvs _ => "DG{" ++ showKVs kvs ++ "}"
+  | .useq kind xs => s!"U{kind}[" ++ showVals xs ++ "]"
+  | .ostr kind k => s!"z{kind}:{k}"
 def showVals : List Val → String
   | [] => ""
   | [x] => x.show
